@@ -20,6 +20,7 @@ import hashlib
 
 # ------------------------------------------------------------------------------------------- base58
 B58 = "123456789ABCDEFGHJKLMNPQRSTUVWXYZabcdefghijkmnopqrstuvwxyz"
+from ._rec import recursive
 
 
 def _dsha(b):
@@ -125,6 +126,15 @@ def _pack(coeffs):
 def bech32_polymod(values):
     """BIP173 polymod as a 30-bit integer"""
     return _pack(bch_remainder(values, BECH32_GEN))
+
+
+@recursive(returns="int:30", fuel=1)
+def polymod_rec(values, k):
+    """BIP173 checksum register after the first k symbols, defined by recursion on k: the remainder polynomial
+    (packed, 5 bits per coefficient) is advanced by one GF(32) shift-register step per symbol, from the polynomial '1'"""
+    if k == 0:
+        return 1
+    return bch_step(polymod_rec(values, k - 1), values[k - 1], BECH32_GEN)
 
 
 BECH32_CONST = 1
